@@ -147,7 +147,9 @@ func (r *rewriter) rewriteFile(f *loader.File, printer FilePrinter) {
 		coName = imports.ImportName(f, pkgCoPath, pkgCoName)
 		assert(coName != "") // coPkg != nil
 		seqName = imports.ImportName(f, pkgSeqPath, pkgSeqName)
-		if seqName == "" {
+		if seqName != importSeqName {
+			// the name of an existing import (seq, alias) may be shadowed by locals of a yield func,
+			// always refer to seq by the reserved name
 			seqName = importSeqName
 			astutil.AddNamedImport(fset, f, importSeqName, pkgSeqPath)
 		}
